@@ -271,6 +271,7 @@ _c("FloatTxtFileSaver", "sink", "Float", "Float", [("path", REQ)], lambda d, w, 
 _c("VBadWriter", "op", "Float", "Float", [], _badwrite, created=("declared_only",), fault="undeclared_write")
 _c("VBoom", "op", "Float", "Float", [("fuse", 1.0)], _boom, fault="boom")
 _c("VRaise", "op", "Float", "Float", [("exc", "zero_division")], lambda d, w, exc="zero_division": _raise_odd(exc), fault="raise")
+_c("VNestedRun", "op", "Float", "Float", [("weight", 1.0)], lambda d, w, weight=1.0: d + weight * 84.0)
 _c("VBoomExit", "op", "Float", "Float", [("fuse", 1.0)], lambda d, w, fuse=1.0: _exit_or_pass(d, fuse), fault="exit")
 _c("VInterrupt", "op", "Float", "Float", [], _abort, fault="abort")
 _c("VWriteThenBoom", "op", "Float", "Float", [("addend", 1.0)], _write_then_boom, created=("note",), fault="boom_after_write")
